@@ -11,6 +11,7 @@ import (
 	"fmt"
 	"io"
 	"sort"
+	"strings"
 	"sync"
 	"sync/atomic"
 	"time"
@@ -643,7 +644,7 @@ func (e *Env) StartRPC(parent context.Context, ch grpc.ClientConnInterface, spec
 		}
 		md.Set("x-rpc", spec.ID)
 		if spec.GrpcTimeout != "" {
-			md.Set("grpc-timeout", spec.GrpcTimeout)
+			md.Set("grpc-timeout", strings.Split(spec.GrpcTimeout, "\x1f")...)
 		}
 		ctx = metadata.NewOutgoingContext(ctx, md)
 	}
